@@ -22,7 +22,9 @@ struct AnchorStore {
 
 #[derive(Default)]
 struct AnchorState {
-    stack: Vec<(AnchorKind, usize)>,
+    /// One frame per wrapper node being deserialized: its kind and the anchor id of that
+    /// node (`None` when the node has no anchor).
+    stack: Vec<(AnchorKind, Option<usize>)>,
     store: AnchorStore,
     in_progress: HashMap<(AnchorKind, usize), usize>,
 }
@@ -36,24 +38,24 @@ pub(crate) fn with_anchor_context<R>(
     anchor: Option<usize>,
     f: impl FnOnce() -> R,
 ) -> R {
-    if let Some(id) = anchor {
-        STATE.with(|state| {
-            let mut s = state.borrow_mut();
-            s.stack.push((kind, id));
+    // A frame is pushed for an unanchored node as well, so that it does not see the anchor id
+    // of an anchored node of the same kind that encloses it.
+    STATE.with(|state| {
+        let mut s = state.borrow_mut();
+        s.stack.push((kind, anchor));
+        if let Some(id) = anchor {
             *s.in_progress.entry((kind, id)).or_insert(0) += 1;
-        });
-        let guard = Guard { kind, id };
-        let result = f();
-        drop(guard);
-        result
-    } else {
-        f()
-    }
+        }
+    });
+    let guard = Guard { kind, anchor };
+    let result = f();
+    drop(guard);
+    result
 }
 
 struct Guard {
     kind: AnchorKind,
-    id: usize,
+    anchor: Option<usize>,
 }
 
 impl Drop for Guard {
@@ -61,17 +63,20 @@ impl Drop for Guard {
         STATE.with(|state| {
             let mut s = state.borrow_mut();
             s.stack.pop();
-            if let Some(count) = s.in_progress.get_mut(&(self.kind, self.id)) {
+            if let Some(id) = self.anchor
+                && let Some(count) = s.in_progress.get_mut(&(self.kind, id))
+            {
                 if *count > 1 {
                     *count -= 1;
                 } else {
-                    s.in_progress.remove(&(self.kind, self.id));
+                    s.in_progress.remove(&(self.kind, id));
                 }
             }
         });
     }
 }
 
+/// Anchor id of the innermost wrapper node of this kind, `None` if that node is not anchored.
 fn current_anchor_id(kind: AnchorKind) -> Option<usize> {
     STATE.with(|state| {
         state
@@ -79,7 +84,8 @@ fn current_anchor_id(kind: AnchorKind) -> Option<usize> {
             .stack
             .iter()
             .rev()
-            .find_map(|(k, id)| if *k == kind { Some(*id) } else { None })
+            .find(|(k, _)| *k == kind)
+            .and_then(|(_, id)| *id)
     })
 }
 
